@@ -16,8 +16,8 @@ func init() { props["C17"] = muxProp{17, genC17, oracleC17} }
 func genC17(r *Rng, tier string, emit func(string, Tok)) {
 	muxGenAll(r, tier, muxMix{
 		random: scale(tier, 120, 600), maxLen: scale(tier, 60, 200),
-		wrap: scale(tier, 25, 300), bigPMT: scale(tier, 20, 200), many: scale(tier, 10, 100), ood: scale(tier, 10, 100),
-		exhaustive: scale(tier, 4, 6), sweep: scale(tier, 0xf20, 0x10100),
+		wrap: scale(tier, 25, 300), bigPMT: scale(tier, 20, 200), many: scale(tier, 10, 100), readd: scale(tier, 15, 150), ood: scale(tier, 10, 100),
+		exhaustive: scale(tier, 4, 5), sweep: scale(tier, 0xf20, 0x10100),
 	}, emit)
 }
 
@@ -36,6 +36,7 @@ type c17Ref struct {
 	pmtV      int
 	emitted   bool
 	autos     map[uint16]bool
+	adds      int
 }
 
 func (m *c17Ref) has(pid uint16) bool {
@@ -112,6 +113,7 @@ func oracleC17(period int, ops []muxOp, calls []muxCall) string {
 		}
 		switch o.kind {
 		case opAdd:
+			m.adds++
 			if c.code != -1 {
 				continue
 			}
@@ -131,14 +133,18 @@ func oracleC17(period int, ops []muxOp, calls []muxCall) string {
 					return at + "no stream after a successful addition"
 				}
 				s.pid = c.st.PMTPIDs[len(c.st.PMTPIDs)-1]
-				if s.pid < 0x100 || s.pid > 0x1ffe || s.pid == 0x1000 {
-					return at + fmt.Sprintf("automatic PID %#x is reserved", s.pid)
-				}
 				if m.has(s.pid) {
 					return at + fmt.Sprintf("automatic PID %#x is in use", s.pid)
 				}
-				if m.autos[s.pid] {
-					return at + fmt.Sprintf("automatic PID %#x was assigned before", s.pid)
+				// the range and freshness clauses hold for fewer than 0x1EFF additions (the PIDs of 0x100..0x1FFE
+				// without 0x1000); beyond that nextPID runs into 0x1FFF and wraps
+				if m.adds <= 0x1efe {
+					if s.pid < 0x100 || s.pid > 0x1ffe || s.pid == 0x1000 {
+						return at + fmt.Sprintf("automatic PID %#x is reserved", s.pid)
+					}
+					if m.autos[s.pid] {
+						return at + fmt.Sprintf("automatic PID %#x was assigned before", s.pid)
+					}
 				}
 				m.autos[s.pid] = true
 			}
